@@ -94,7 +94,69 @@ func TestVerifStoreRace(t *testing.T) {
 		t.Fail()
 		return
 	}
-	fmt.Printf("storerace ok rounds=%d\n", done+done2)
+	// third phase: policy.Add against concurrent UpdateMaxCost (an atomic store that does not take the policy mutex)
+	done3 := vMaxCostRace(t, rounds*4)
+	if done3 < 0 {
+		t.Fail()
+		return
+	}
+	fmt.Printf("storerace ok rounds=%d\n", done+done2+done3)
+}
+
+// vMaxCostRace: Add re-reads MaxCost on every turn of its eviction loop; UpdateMaxCost may lower it below the cost of
+// the item being added at any point.  Whatever happens, Add must return (admitted or not) and the accounting must stay
+// consistent: used = sum of the accounted costs.
+func vMaxCostRace(t *testing.T, rounds int) int {
+	pol := newPolicy[uint64](1024, 1000)
+	defer pol.Close()
+	stop := make(chan struct{})
+	toggled := make(chan struct{})
+	go func() {
+		defer close(toggled)
+		for i := 0; ; i++ {
+			select {
+			case <-stop:
+				return
+			default:
+			}
+			if i%2 == 0 {
+				pol.UpdateMaxCost(1)
+			} else {
+				pol.UpdateMaxCost(1000)
+			}
+		}
+	}()
+	bad := ""
+	func() {
+		defer func() {
+			if r := recover(); r != nil {
+				bad = fmt.Sprintf("stress panic: policy.Add panicked while UpdateMaxCost ran concurrently: %v", r)
+			}
+		}()
+		for k := 1; k <= rounds; k++ {
+			pol.Add(uint64(k), 100)
+			if k%4096 == 0 {
+				pol.Lock()
+				var sum int64
+				for _, c := range pol.evict.keyCosts {
+					sum += c
+				}
+				used := pol.evict.used
+				pol.Unlock()
+				if sum != used {
+					bad = fmt.Sprintf("stress panic: after Add raced UpdateMaxCost the accounting is inconsistent: used=%d, sum of costs=%d", used, sum)
+					return
+				}
+			}
+		}
+	}()
+	close(stop)
+	<-toggled
+	if bad != "" {
+		fmt.Println(bad)
+		return -1
+	}
+	return rounds
 }
 
 func vSweepRace(t *testing.T, rounds int) int {
